@@ -621,14 +621,27 @@ pub async fn live_lookups(
     let reqs2: Vec<(String, String, Option<Version>)> = reqs.to_vec();
     let out = tokio::task::spawn_blocking(move || {
         let mut out = vec![];
-        for (m, p, v) in reqs2.iter() {
+        for (k, (m, p, v)) in reqs2.iter().enumerate() {
             let vs = v.as_ref().map(|v| v.to_string());
             let mut hdrs: Vec<(&str, &str)> = vec![];
             if let Some(vs) = vs.as_ref() {
                 hdrs.push(("api-version", vs.as_str()));
             }
             let req = build_request(m, p, &hdrs, b"");
-            let resp = roundtrip(addr, &req, m == "HEAD");
+            // dispatch does not depend on the protocol version of the request: every fourth
+            // request is made with an HTTP/1.0 request line, every fourth over HTTP/2 (when an
+            // HTTP/2 client can express it)
+            let h2_ok = http::Method::from_bytes(m.as_bytes()).is_ok()
+                && format!("http://localhost{}", p).parse::<http::Uri>().is_ok()
+                && m != "CONNECT";
+            let resp = if k % 4 == 3 && h2_ok {
+                h2_roundtrip(addr, m, p, &hdrs, b"", true)
+            } else if k % 4 == 1 {
+                let text = String::from_utf8_lossy(&req).replacen(" HTTP/1.1\r\n", " HTTP/1.0\r\n", 1);
+                roundtrip(addr, text.as_bytes(), m == "HEAD")
+            } else {
+                roundtrip(addr, &req, m == "HEAD")
+            };
             out.push(match resp {
                 None => "noresponse".to_string(),
                 Some(r) => match r.status {
